@@ -23,6 +23,7 @@ type Ctx struct {
 	Replay   map[string]any // decoded replay file, if replaying
 	Self     string         // path of this binary (for worker re-exec)
 	CueBin   string         // path of the cue binary built from the tree
+	BatchEnv []string       // extra environment of the worker processes started by RunBatch
 	Workers  int
 	// ASLimitKB, if > 0, is the address-space limit (ulimit -v) of batch workers.
 	ASLimitKB int
